@@ -236,6 +236,10 @@ def run(ctx):
     # struct arguments and results as extension types (python.rst PY_struct_arg: class; struct-class-c / -cxx)
     from ..exec import structs_e2e
     structs_e2e.run_structs(ctx, "python", 8 if quick else 120, configs=({"wrap_python": True, "PY_struct_arg": "class"},))
+    # class member variables as attributes (+readonly raises AttributeError, +name), subclass instances reach the base
+    # class's attributes and methods
+    from ..exec import members_e2e
+    members_e2e.run_members(ctx, "python", 4 if quick else 80)
     for out in core.pool_map(_gen_job, jobs):
         ctx.case(n=out["ncalls"], label=out["labels"])
         for nt in out["nontrivial"]:
@@ -255,6 +259,9 @@ def replay(ctx, rec):
     if "struct_case" in c:
         from ..exec import structs_e2e
         return structs_e2e.replay_case(ctx, rec)
+    if "member_case" in c:
+        from ..exec import members_e2e
+        return members_e2e.replay_case(ctx, rec)
     if c.get("probe"):
         why = dict(PROBES)[c["probe"]]()
         if why:
